@@ -165,7 +165,7 @@ def run(ck):
                              "normalization(space) is not rbm_am.partition(space)")
                     ck.check(o["cnorm"].term == part, "C01.R5", inst + ":compute_normalization", prog.method(cls, "compute_normalization").site(),
                              "compute_normalization(space) is not normalization(space)")
-                    ck.check(o["part"].shape == (), "C01.R5", inst + ":scalar", site, "partition is not a scalar: %s" % (o["part"].shape,))
+                    ck.check(shape_is(o["part"], ()), "C01.R5", inst + ":scalar", site, "partition is not a scalar: %s" % (o["part"].shape,))
                     # R6: the normalisation depends on every amplitude parameter (and on nothing of the phase network)
                     am = {t.single_atom().name for t in o["R_am"].values()}
                     got = o["norm"].term.syms() if o["norm"].term is not None else None
